@@ -637,7 +637,9 @@ func TestC09Scatter(t *testing.T) {
 		} else {
 			c.N = rapid.IntRange(1, 5000).Draw(rt, "n")
 		}
+		stop := vkit.Watch(c, 120*time.Second)
 		v := runScatter(c)
+		stop()
 		vkit.S.Eval()
 		if c.N%c.Procs != 0 {
 			vkit.S.Nontrivial(c)
